@@ -38,8 +38,19 @@ def handle (tb : Tables) (c impl : T) : String :=
       let alt := predict { assureOnce := !cfgCur.assureOnce }
       let want := T.node "obs" [T.ofBool baseOk, T.ofBool true, T.ofBool true]
       verdict impl cur [{ flag := "D34", onInCur := cfgCur.assureOnce, obs := alt }] (impl == want)
+  | .node "c16o" [multi, baseOk] =>
+    -- member order under extension: (c16o inputExtendedByTwoOrMore inlineAccepted); obs: (obs accepted orderSame).
+    -- With D76 the order of an input type's added fields is the iteration order of a Go map: the outcome is
+    -- not a function of the input, so nothing is predicted there — a difference is attributed, equality is ok.
+    (match multi.asBool, baseOk.asBool with
+     | some multi, some baseOk =>
+       let want := T.node "obs" [T.ofBool baseOk, T.ofBool true]
+       if impl == want then "ok"
+       else if tb.inputExtendMapOrder && multi && impl == T.node "obs" [T.ofBool baseOk, T.ofBool false] then "dev D76"
+       else "mismatch spec-bad " ++ want.render
+     | _, _ => "bad-op")
   | _ => "bad-op"
 
-def flags (tb : Tables) : List (String × Bool) := [("D34", tb.assureOnce)]
+def flags (tb : Tables) : List (String × Bool) := [("D34", tb.assureOnce), ("D76", tb.inputExtendMapOrder)]
 
 end Ggql.Driver.C16
